@@ -237,15 +237,26 @@ def r13_play(ctx):
             exp1 = d1.sub(P('c1').sub(c0))
             exp2 = d1.add(d2).sub(P('c2').sub(c0))
             exp3 = d1.add(d2).sub(P('c3').sub(c0))
-            for sl in sleeps:
+            # every wait is "scheduled time of a message, minus the time that has passed since the start": the elapsed time is taken
+            # from the latest clock reading before the wait (whichever reading that is - a loop that does not look at the clock
+            # for messages it passes over is as good), the scheduled time is that of one of the three messages
+            for pos_, sl in enumerate(log):
+                if sl[0] != 'sleep':
+                    continue
                 arg = sl[1]
-                if not isinstance(arg, Poly) or not (arg.close_to(exp1) or arg.close_to(exp2) or arg.close_to(exp3)):
+                j_ = sum(1 for e_ in log[:pos_] if e_[0] == 'now') - 1
+                latest = P(f'c{j_}') if j_ >= 1 else None
+                cands = [cum.sub(latest.sub(c0)) for cum in (d1, d1.add(d2))] if latest is not None else []
+                if not isinstance(arg, Poly) or not any(arg.close_to(c_) for c_ in cands):
                     ok_all = False
                     why = f'sleep({arg!r}); the remaining time is {exp1!r} resp. {exp2!r} (schedule relative to the start time, not the previous message)'
-            # start time read exactly once, before the loop; one clock reading per message
-            if len(nows) != 4:
+            # the start time is read once, before anything is waited for or handed out, and the clock is looked at before every
+            # message that is handed out
+            first_other = next((i for i, e_ in enumerate(log) if e_[0] in ('sleep',)), len(log))
+            n_yield = len([x for x in (oc.value.items if isinstance(oc.value, AList) else []) if isinstance(x, AObj)])
+            if not nows or log.index(nows[0]) > first_other or len(nows) < 1 + n_yield:
                 ok_all = False
-                why = why or f'{len(nows)} clock readings for 3 messages (start + one per message expected)'
+                why = why or f'{len(nows)} clock readings for {n_yield} messages handed out (one for the start and one before each message expected)'
             ys = [e for e in log if e[0] == 'yield' and isinstance(e[1], AObj) and e[1].attrs.get('type') in ('note_on', 'marker')
                   and isinstance(e[1].attrs.get('time'), Poly) and e[1].attrs.get('time').close_to(d1) or
                   (e[0] == 'yield' and isinstance(e[1], AObj) and e[1].attrs.get('type') == 'marker')]
@@ -278,10 +289,12 @@ def r13_play(ctx):
         # every message that is handed out has its scheduled time waited for - meta messages too when they are yielded:
         # for each of the three messages some outcome must sleep for exactly its remaining time
         exp = [d1.sub(P('c1').sub(c0)), d1.add(d2).sub(P('c2').sub(c0)), d1.add(d2).sub(P('c3').sub(c0))]
+        cums = [d1, d1.add(d2), d1.add(d2)]
         for k, (ek, what) in enumerate(zip(exp, ('the note_on', 'the marker (a meta message)', 'the closing end_of_track'))):
             if k > 0 and not meta_on:
                 continue            # a message that is not handed out need not be waited for (the next one has its own schedule)
-            hit = any(e[0] == 'sleep' and isinstance(e[1], Poly) and e[1].close_to(ek) for oc in outs for e in oc.log)
+            hit = any(e[0] == 'sleep' and isinstance(e[1], Poly) and any(e[1].close_to(cums[k].sub(P(f'c{j}').sub(c0))) for j in range(1, 8))
+                      for oc in outs for e in oc.log)
             if not hit and ok_all:
                 ok_all = False
                 why = f'no execution waits for the scheduled time of {what}: it is handed out (or passed over) the moment its predecessor was - before its time'
@@ -306,6 +319,21 @@ def r13_play(ctx):
             if len(times) != 1 or not (isinstance(times[0], Poly) and times[0].close_to(d2)):
                 ok = False
                 why = f'play() of [marker after t1 ticks, note_on after t2 more] yields messages with the times {times}; the note carries {d2!r} in iteration'
+            # ... and it is waited for until ITS time: the ticks of the marker that was passed over count (whether or not the marker's
+            # own time was waited for on the way)
+            for pos_, sl in enumerate(oc.log):
+                if sl[0] != 'sleep':
+                    continue
+                j_ = sum(1 for e_ in oc.log[:pos_] if e_[0] == 'now') - 1
+                cands = [cum.sub(P(f'c{j_}').sub(P('c0'))) for cum in (d1, d1.add(d2))] if j_ >= 1 else []
+                if not isinstance(sl[1], Poly) or not any(sl[1].close_to(c_) for c_ in cands):
+                    ok = False
+                    why = f'play() of [marker after t1 ticks, note_on after t2 more] waits sleep({sl[1]!r}); the note is due {d1.add(d2)!r} after the start'
+        slept_for_note = any(e_[0] == 'sleep' and isinstance(e_[1], Poly) and any(e_[1].close_to(d1.add(d2).sub(P(f'c{j}').sub(P('c0')))) for j in range(1, 6))
+                             for oc in outs for e_ in oc.log)
+        if ok and not slept_for_note:
+            ok = False
+            why = 'no execution waits for the scheduled time of the note behind the filtered marker'
     ctx.require(ok, 'R13.4', 'play(): the time of a message behind a filtered meta message', w, why, construct=f'{play.qname}::yielded-time')
     for q in ai.inlined:
         ctx.functions.add(q)
